@@ -202,6 +202,17 @@ def part_c(chk, plain, quick):
         for s in MALFORMED[:12]:
             cases.append({"kind": "malformed", "requires": [{name: s}], "events": [],
                           "expect_ok": False, "model": name, "want": s, "have": have})
+        # several streams requiring the same model: every requirement counts,
+        # wherever the incompatible one is in the emulator's thread order
+        good = "%d.%d.%d" % have
+        older = "%d.%d.%d" % (have[0], max(0, have[1] - 1), 7)
+        for bad in ("%d.%d.0" % (have[0], have[1] + 1), "%d.0.0" % (have[0] + 1), "nonsense"):
+            for reqs in ([{name: good}, {name: bad}], [{name: bad}, {name: good}], [{name: good}, {name: older}, {name: bad}]):
+                cases.append({"kind": "mixed-requirements", "requires": reqs, "events": [], "expect_ok": False,
+                              "model": name, "want": [list(r.values())[0] for r in reqs], "have": have})
+        cases.append({"kind": "mixed-compatible", "requires": [{name: good}, {name: older}],
+                      "events": [] if name == "ovni" else [mc], "expect_ok": True, "model": name,
+                      "want": [good, older], "have": have})
     # all subsets of optional models, spread over two threads; one probe event per model of a chosen set
     opt = sorted(MODELS)
     subsets = list(itertools.chain.from_iterable(itertools.combinations(opt, k) for k in range(len(opt) + 1)))
@@ -237,7 +248,7 @@ def part_c(chk, plain, quick):
             chk.report("emu-crash:%s" % c["kind"], "emulator crashed (sig %s rc %s)" % (r.sig, r.rc), r.brief()); continue
         acc = emu.accepted(r)
         if acc != c["expect_ok"]:
-            if c["kind"] in ("version", "malformed"):
+            if c["kind"] in ("version", "malformed", "mixed-requirements", "mixed-compatible"):
                 key = "emu-model-version:%s" % ("accepts-incompatible" if acc else "rejects-compatible")
                 what = "model %s: required %s, emulator has %s -> %s" % (c["model"], c["want"], c["have"],
                                                                         "accepted" if acc else "rejected: " + emu.last_error(r))
